@@ -8,6 +8,7 @@ in two ways:
   * callee mode -- a call to the function from another unit is replaced by the contract: the caller proves
     `requires`, forks over the feasible cases, havocs `modifies`, assumes `ensures`/`post`.
 """
+import os as _os
 import time
 import traceback
 
@@ -267,6 +268,9 @@ def verify_unit(loader, contract, registry, timeout_ms=20000, max_paths=MAX_PATH
     res.source = "%s:%d" % (base.module.path, base.lineno)
     loops = dict(registry.loops)
     work = [([], [])]
+    only = _os.environ.get("PYVC_ONLY_PATH")
+    if only is not None:
+        work = [([int(c) for c in only], [])]
     while work:
         if res.paths >= max_paths:
             res.demoted = "more than %d paths" % max_paths
@@ -283,6 +287,9 @@ def verify_unit(loader, contract, registry, timeout_ms=20000, max_paths=MAX_PATH
             run_path(E, contract, fn, res)
             res.paths += 1
         except Fork as f:
+            if only is not None:
+                print("  path %s forks %d ways" % (E.path_id, f.n))
+                continue
             for k in reversed(range(f.n)):
                 work.append((dec + [k], E.qlog))
             res.obligations.extend(E.obligations)       # obligations met before the fork: reported once, here
